@@ -1,4 +1,5 @@
 import QipVerif.Lemmas.RouteDen
+import QipVerif.Lemmas.RouteC
 /-!
 # C07 — nearest-neighbour routing preserves the unitary and yields adjacent gates only
 
@@ -262,5 +263,59 @@ theorem C07_counterexample_arg_old :
 /-- (iv) fails before `fixes/C07-4.patch`: a measurement does not come out unchanged. -/
 theorem C07_counterexample_meas_old :
     toChainV .old 2 .linear [⟨.meas 0, [], [1], 0, 0⟩] = .ok [⟨.meas 0, [], [], 0, 0⟩] := by decide
+
+/-! ## same unitary over ℂ — the instantiation of (v)
+
+`Route.interpC N α oth` (`Lemmas/RouteC.lean`) interprets a gate of the router as a complex matrix on
+the `N`-qubit register: a handled gate is `Tg.embed` of its compact matrix — the exact library
+matrices `GateE.cnot`, `csign`, `swap`, `iswap`, `sqrtswap`, `sqrtiswap`, `berkeley` mapped to ℂ by
+`toMatD 2`, SWAPalpha the generated `Gen.G.swapalpha_ (α arg)` — on (control, target) resp. on its two
+targets in the listed order (malformed placements denote `1`); an unhandled gate or a measurement
+`g` is `oth g`, an arbitrary family.  `α : ℕ → ℝ` is any valuation of the `arg` labels.
+`SwapLaws` is proved for this interpretation (`Route.swapLaws_interpH`: SWAP is the permutation
+matrix of the transposition, `Lemmas/EmbedPerm.lean`; the exchange symmetry of the six exchange-type
+matrices is decided in exact arithmetic resp. proved for all real `alpha`), so (v) holds with no
+hypothesis about matrices left. -/
+
+/-- `SwapLaws` holds for the complex matrices of the handled gates (unhandled ↦ `1`) … -/
+theorem swapLaws_C (N : Nat) (α : ℕ → ℝ) : SwapLaws N (interpH N α) := swapLaws_interpH N α
+
+/-- … and for the full interpretation whenever the family of the unhandled gates is covariant on
+two-qubit gates (not needed below). -/
+theorem swapLaws_C_full (N : Nat) (α : ℕ → ℝ) (oth : Gate → Matrix (St N) (St N) ℂ)
+    (hoth : ∀ i j, i < N → j < N → i ≠ j → ∀ g, ¬ Handled g → TwoQ N g →
+      place2 N i j SWAP2 * oth g * place2 N i j SWAP2 = oth (g.relabel (swapAt i j))) :
+    SwapLaws N (interpC N α oth) := swapLaws_interpC N α oth hoth
+
+/-- **(v) over ℂ, one gate.** For every register size `N`, both topologies, every well-formed
+handled gate: the product of the embedded complex matrices of the routed gates (later gates on
+the left) is the embedded matrix of the gate. -/
+theorem route_den_gate_C (N : Nat) (α : ℕ → ℝ) (oth : Gate → Matrix (St N) (St N) ℂ) (setup : Setup)
+    (hs : setup = .linear ∨ setup = .circular) (g : Gate) (hw : WellFormed N g) (hh : Handled g)
+    (hp : Plain g) (out : List Gate) (ho : routeGate N setup g = .ok out) :
+    den (interpC N α oth) out = interpC N α oth g :=
+  routeGate_den_C α oth setup hs g hw hh hp out ho
+
+/-- **(v) over ℂ, route_den.** The routed circuit is the same operator as the input circuit:
+for every `N`, both topologies, every circuit of well-formed gates (handled gates `Plain`), every
+valuation of the SWAPalpha arguments and every interpretation `oth` of the gates the router passes
+through. -/
+theorem route_den_C (N : Nat) (α : ℕ → ℝ) (oth : Gate → Matrix (St N) (St N) ℂ) (setup : Setup)
+    (hs : setup = .linear ∨ setup = .circular) (gs : List Gate) (hw : ∀ g ∈ gs, WellFormed N g)
+    (hp : ∀ g ∈ gs, Handled g → Plain g) (out : List Gate) (ho : toChain N setup gs = .ok out) :
+    den (interpC N α oth) out = den (interpC N α oth) gs :=
+  toChain_den_C α oth setup hs gs hw hp out ho
+
+-- conventions: on two qubits CNOT(control 0, target 1) is the library matrix itself, and the
+-- interpretation of the routed circuit of the example after `route_in_range` is that of the gate
+example (α : ℕ → ℝ) : interpH 2 α ⟨.CNOT, [0], [1], 0, 0⟩ = toMatD 2 GateE.cnot := interpH_cnot_two α
+
+example (α : ℕ → ℝ) (oth : Gate → Matrix (St 9) (St 9) ℂ) :
+    den (interpC 9 α oth)
+      [swapG 5 6, swapG 8 0, swapG 6 7, ⟨.CNOT, [8], [7], 0, 0⟩, swapG 6 7, swapG 8 0, swapG 5 6] =
+    interpC 9 α oth ⟨.CNOT, [0], [5], 0, 0⟩ :=
+  route_den_gate_C 9 α oth .circular (Or.inr rfl) ⟨.CNOT, [0], [5], 0, 0⟩
+    ⟨fun _ => ⟨0, 5, rfl, rfl, by decide, by decide, by decide⟩, fun h => absurd h (by decide)⟩
+    (Or.inl rfl) ⟨rfl, fun _ => rfl⟩ _ (by decide)
 
 end QipVerif.C07
